@@ -853,41 +853,42 @@ static ly_bool
 lyd_validate_autodel_case_dflt(struct lyd_node **first, struct lyd_node **node, const struct lys_module *mod,
         struct lyd_node **diff)
 {
-    const struct lysc_node *schema;
+    const struct lysc_node *schema, *scase;
     struct lysc_node_choice *choic;
-    struct lyd_node *iter = NULL;
-    const struct lysc_node *slast = NULL;
+    struct lyd_node *iter;
+    const struct lysc_node *slast;
     ly_bool node_autodel = 0;
 
     assert((*node)->flags & LYD_DEFAULT);
 
     schema = (*node)->schema;
 
-    if (!schema->parent || (schema->parent->nodetype != LYS_CASE)) {
-        /* the default node is not a descendant of a case */
-        return 0;
-    }
+    /* go through all the parent cases, the node may be in nested choices */
+    for (scase = schema->parent; scase && (scase->nodetype == LYS_CASE); scase = scase->parent->parent) {
+        choic = (struct lysc_node_choice *)scase->parent;
+        assert(choic->nodetype == LYS_CHOICE);
 
-    choic = (struct lysc_node_choice *)schema->parent->parent;
-    assert(choic->nodetype == LYS_CHOICE);
-
-    if (choic->dflt && (choic->dflt == (struct lysc_node_case *)schema->parent)) {
-        /* data of a default case, keep them */
-        return 0;
-    }
-
-    /* try to find an explicit node of the case */
-    while ((iter = lys_getnext_data(iter, *first, &slast, schema->parent, NULL))) {
-        if (!(iter->flags & LYD_DEFAULT)) {
-            break;
+        if (choic->dflt && (choic->dflt == (struct lysc_node_case *)scase)) {
+            /* data of a default case, keep them (unless a parent case does not exist) */
+            continue;
         }
-    }
 
-    if (!iter) {
-        /* there are only default nodes of the case meaning it does not exist and neither should any default nodes
-         * of the case, remove this one default node */
-        if (lyd_validate_autodel_node_del(first, *node, mod, 0, node, NULL, NULL, diff)) {
-            node_autodel = 1;
+        /* try to find an explicit node of the case */
+        iter = NULL;
+        slast = NULL;
+        while ((iter = lys_getnext_data(iter, *first, &slast, scase, NULL))) {
+            if (!(iter->flags & LYD_DEFAULT)) {
+                break;
+            }
+        }
+
+        if (!iter) {
+            /* there are only default nodes of the case meaning it does not exist and neither should any default nodes
+             * of the case, remove this one default node */
+            if (lyd_validate_autodel_node_del(first, *node, mod, 0, node, NULL, NULL, diff)) {
+                node_autodel = 1;
+            }
+            break;
         }
     }
 
